@@ -6,22 +6,24 @@ set_option linter.unusedVariables false
 
 Only property theorems and non-vacuity examples live here.
 
-*Document state* = `Doc.obs`: buffer size; per layer, in stack order: size, properties (visible, locked,
-position-locked, alpha, alpha-locked, offset) and every stored cell INCLUDING rows/cells hidden beyond the layer size
-— but not the representation of the row storage, and not caret / selection / current layer (the property does not list
-them).  Palette, fonts, SAUCE, ice/palette/font modes are not in the model (no modelled record touches them).
+*Document state* = `Doc.obs`: buffer size; font table (slot → font), font / palette / ice mode, palette, SAUCE record;
+per layer, in stack order: size, properties (title, role, visible, locked, position-locked, alpha, alpha-locked, offset)
+and every stored cell INCLUDING rows/cells hidden beyond the layer size — but not the representation of the row storage,
+and not caret / selection / selection mask / current layer (the property does not list them).
 
 *Full statement* (DESIGN §4 C08): for every history of successful edits over ALL public operations, with undo/redo
 steps interleaved, undo/redo never fail, undoing what the history added restores the initial document, redoing restores
 the final one, a new edit empties the redo stack, atomic groups nest.
 *Proved here*: exactly that (`stack_discipline`, `stack_discipline_fresh`, `new_edit_clears_redo`,
 `atomic_group_folds`, `atomic_group_undoable`) for every history whose records satisfy the per-record inverse law
-`InverseAt` / `Undoable`; the inverse law itself, at EVERY document, for the records named `inverse_*` below; and,
-putting both together, `api_history_discipline`: the full statement for every history over the 27 public operations of
-`Call` (layer stack operations, sizes, crop, rows/columns, selection, atomic groups, undo/redo), whose step lists are
-what the driver executes in the correspondence run.
-`…_partial` = the law is false on the pinned tree for the excluded documents (see `known_findings.txt`, witnesses
-below); records/operations without an `inverse_` theorem are covered by the correspondence/oracle runs only. -/
+`InverseAt` / `Undoable`; the inverse law itself, at EVERY document, for every record type the model has (`inverse_*`
+below; after the repairs of `known_findings.txt` none of them is partial any more); and, putting both together,
+`api_history_discipline`: the full statement for every history over the 66 operations of `Call` — cells, layer
+stack, sizes, crop, rows/columns, selection and selection mask, every `UndoLayerChange`-based area operation (flip,
+justify, center, erase, scroll, make transparent, stamp down), rotate, merge / anchor, paste / floating layer, layer
+properties, fonts, ice mode, palette, SAUCE, caret records, `push_reverse_undo`, atomic groups, undo/redo — whose step
+lists are what the driver executes in the correspondence run.  Not in the model: `set_palette_mode`'s colour matching,
+flip tables, `Shape::Lines` selections in the mask, `default_font_page` (see `tools/propsd/C08.py`). -/
 namespace IcyVerif.C08
 open IcyVerif.Undo
 
@@ -72,13 +74,17 @@ theorem stack_discipline_fresh (d0 : Doc) (h : List Step) (hgood : ∀ s ∈ h, 
   rw [e0] at h1 h4
   exact ⟨ed2, h1, h2, h3, ed3, h4, h5, h6⟩
 
-/-- **End to end for the operations whose records all obey the inverse law.**  For EVERY history of calls to
-    add_new_layer, remove/raise/lower/duplicate/clear_layer, toggle_layer_visibility, move_layer, set_layer_size,
-    resize_buffer (with and without layers), crop, crop_rect, delete/insert row and column, set_selection,
-    clear_selection, deselect, caret/current-layer/mirror changes, atomic groups and undo/redo steps — any parameters
-    (out-of-range indices, negative sizes and caret positions included), any interleaving — on EVERY document (hidden
-    rows, unmaterialised rows, locked/hidden/alpha-locked layers, offsets): undo and redo never fail; when all edits
-    succeed, undoing the whole undo stack restores the initial document, redoing it restores the final one.
+/-- **End to end.**  For EVERY history of calls to the 66 operations of `Call` (set_char with and without mirror mode,
+    swap_char, add/remove/raise/lower/duplicate/clear/merge/anchor/rotate/stamp layer, toggle visibility, move, resize,
+    update properties, paste, add_floating_layer, resize_buffer (with and without layers), crop, crop_rect, delete/insert
+    row and column, set/clear/deselect selection, add_selection_to_mask, inverse_selection, erase_selection, erase_row /
+    column (+ to start / end), flip_x/y, justify_left/right, center, the three line variants, scroll_area_up/down/left/
+    right, make_layer_transparent, switch_to_font_page, set/add fonts, replace_font_usage, change_font_slot, remove_font,
+    set_ice_mode, switch_to_palette, update_sauce_data, undo_caret_position, push_reverse_undo, caret/current-layer/mirror
+    changes, atomic groups and undo/redo steps) — any parameters (out-of-range indices, negative sizes and caret positions
+    included), any interleaving — on EVERY document (hidden rows, unmaterialised rows, locked/hidden/alpha-locked layers,
+    offsets, any font table): undo and redo never fail; when all edits succeed, undoing the whole undo stack restores the
+    initial document, redoing it restores the final one.
     `Call.steps` is what the driver executes in the correspondence run, so this is a statement about the tied model. -/
 theorem api_history_discipline (d0 : Doc) (calls : List Call) :
     let ed0 : Ed := ⟨d0, [], [], []⟩
@@ -168,16 +174,15 @@ theorem atomic_group_undoable (ops : List UndoOp) (a c : DObs) (h : UChain ops a
 
 /-! ## the inverse law, record by record, at every document -/
 
-theorem inverse_setChar_partial (d : Doc) (i : Nat) (x y : Int) (old new : Cell)
-    (hold : ∀ l, d.layers[i]? = some l → old = l.getChar x y)
-    (hsafe : ∀ l, d.layers[i]? = some l →
-      ¬ (l.obs.writes x y = true ∧ l.props.hasAlpha = true ∧ l.props.alphaLocked = true ∧ new.isVisible = false)) :
-    InverseAt (.setChar x y i old new) d := IcyVerif.Undo.inverse_setChar_partial d i x y old new hold hsafe
-
-theorem inverse_swapChar_partial (d : Doc) (i : Nat) (x1 y1 x2 y2 : Int)
-    (hsafe : ∀ l, d.layers[i]? = some l → ¬ (l.props.hasAlpha = true ∧ l.props.alphaLocked = true)) :
-    InverseAt (.swapChar i x1 y1 x2 y2) d := IcyVerif.Undo.inverse_swapChar_partial d i x1 y1 x2 y2 hsafe
-
+theorem inverse_setChar (d : Doc) (i : Nat) (x y : Int) (old new : Cell)
+    (hold : ∀ l, d.layers[i]? = some l → old = l.getChar x y) :
+    InverseAt (.setChar x y i old new) d := IcyVerif.Undo.inverse_setChar d i x y old new hold
+/-- the group a mirrored `set_char` on the centre column pushes (the same record twice) -/
+theorem inverse_setChar_mirror_centre (d : Doc) (i : Nat) (x y : Int) (c : Cell) (l : LayerM) (hl : d.layers[i]? = some l) :
+    Undoable (.atomic [.setChar x y i (l.getChar x y) c, .setChar x y i (l.getChar x y) c]) d.obs
+      (d.setLayer i ((l.setChar x y c).setChar x y c)).obs := undoable_setChar_twice d i x y c l hl
+theorem inverse_swapChar (d : Doc) (i : Nat) (x1 y1 x2 y2 : Int) : InverseAt (.swapChar i x1 y1 x2 y2) d :=
+  IcyVerif.Undo.inverse_swapChar d i x1 y1 x2 y2
 theorem inverse_addLayer (d : Doc) (idx : Nat) (l : LayerM) : InverseAt (.addLayer idx (some l)) d :=
   IcyVerif.Undo.inverse_addLayer d idx l
 theorem inverse_removeLayer (d : Doc) (idx : Nat) (p : Option LayerM) : InverseAt (.removeLayer idx p) d :=
@@ -208,22 +213,76 @@ theorem inverse_insertColumn (d : Doc) (i : Nat) (col : Int) : InverseAt (.inser
   IcyVerif.Undo.inverse_insertColumn d i col
 theorem inverse_scrollUp (d : Doc) (i : Nat) : InverseAt (.scrollUp i) d := IcyVerif.Undo.inverse_scrollUp d i
 theorem inverse_scrollDown (d : Doc) (i : Nat) : InverseAt (.scrollDown i) d := IcyVerif.Undo.inverse_scrollDown d i
-theorem inverse_layerChange_wholesale_partial (d : Doc) (i : Nat) (px py : Int) (old new l l' : LayerM)
-    (hl : d.layers[i]? = some l)
-    (hsz : old.w = l.w ∧ old.h = l.h ∧ new.w = l.w ∧ new.h = l.h ∧ l'.w = l.w ∧ l'.h = l.h ∧ l'.props = l.props)
-    (hold : rowsGet old.lines = rowsGet l.lines) (hnew : rowsGet new.lines = rowsGet l'.lines) :
-    Undoable (.layerChange i px py old new) d.obs (d.setLayer i l').obs :=
-  IcyVerif.Undo.inverse_layerChange_wholesale_partial d i px py old new l l' hl hsz hold hnew
-theorem inverse_setSelection (d : Doc) (old new : Option Rect) : InverseAt (.setSelection old new) d :=
+
+/-- **UndoLayerChange, full law** (flip, justify, center, erase, partial scroll, make transparent, stamp down): for every
+    layer state and every area, whenever the snapshots are `from_layer` of the layer before and after an edit that stayed
+    inside the area (`Frame`) — which every operation that builds this record does (`call_steps_good`) -/
+theorem inverse_layerChange (d : Doc) (i : Nat) (a : Rect) (l l' old new : LayerM)
+    (hl : d.layers[i]? = some l) (hold : fromLayer l a = .ok old) (hnew : fromLayer l' a = .ok new)
+    (hframe : Frame a l.obs l'.obs) :
+    Undoable (.layerChange i a.x a.y old new) d.obs (d.setLayer i l').obs :=
+  undoable_layerChange d i a l l' old new hl hold hnew hframe
+
+theorem inverse_setSelection (d : Doc) (old new : Option Sel) : InverseAt (.setSelection old new) d :=
   IcyVerif.Undo.inverse_setSelection d old new
-theorem inverse_selectNothing (d : Doc) (sel : Option Rect) : InverseAt (.selectNothing sel) d :=
-  IcyVerif.Undo.inverse_selectNothing d sel
-theorem inverse_deselect (d : Doc) (sel : Rect) : InverseAt (.deselect sel) d := IcyVerif.Undo.inverse_deselect d sel
+theorem inverse_selectNothing (d : Doc) (sel : Option Sel) (mask : Mask) : InverseAt (.selectNothing sel mask) d :=
+  IcyVerif.Undo.inverse_selectNothing d sel mask
+theorem inverse_deselect (d : Doc) (sel : Sel) : InverseAt (.deselect sel) d := IcyVerif.Undo.inverse_deselect d sel
+theorem inverse_setSelectionMask (d : Doc) (old new : Mask) : InverseAt (.setSelectionMask old new) d :=
+  IcyVerif.Undo.inverse_setSelectionMask d old new
+theorem inverse_addSelectionToMask (d : Doc) (old : Mask) (sel : Sel) : InverseAt (.addSelectionToMask old sel) d :=
+  IcyVerif.Undo.inverse_addSelectionToMask d old sel
+theorem inverse_inverseSelection (d : Doc) (sel : Option Sel) (old new : Mask) :
+    Undoable (.inverseSelection sel old new) d.obs ({ d with sel := none, mask := new } : Doc).obs :=
+  undoable_inverseSelection d sel old new
+
+theorem inverse_mergeLayerDown (d : Doc) (idx : Nat) (m : LayerM) (o0 : Option (List LayerM)) :
+    InverseAt (.mergeLayerDown idx (some m) o0) d := IcyVerif.Undo.inverse_mergeLayerDown d idx m o0
+theorem inverse_paste (d : Doc) (cur : Nat) (l : LayerM) : InverseAt (.paste cur (some l)) d := IcyVerif.Undo.inverse_paste d cur l
+theorem inverse_addFloatingLayer (d : Doc) (i : Nat)
+    (hpaste : ∀ l, d.layers[i]? = some l → (l.props.role = 1 ∨ l.props.role = 2) ∧ l.props.title = IcyVerif.Gen.Undo.layerPastedName) :
+    InverseAt (.addFloatingLayer i) d := IcyVerif.Undo.inverse_addFloatingLayer d i hpaste
+theorem inverse_rotateLayer (d : Doc) (i : Nat) (old new : List Row)
+    (hold : ∀ l, d.layers[i]? = some l → old = l.lines) : InverseAt (.rotateLayer i old new) d :=
+  IcyVerif.Undo.inverse_rotateLayer d i old new hold
+theorem inverse_updateLayerProps (d : Doc) (i : Nat) (old new : Props)
+    (hold : ∀ l, d.layers[i]? = some l → old = l.props) : InverseAt (.updateLayerProps i old new) d :=
+  IcyVerif.Undo.inverse_updateLayerProps d i old new hold
+
+theorem inverse_switchToFontPage (d : Doc) (old new : Nat) : InverseAt (.switchToFontPage old new) d :=
+  IcyVerif.Undo.inverse_switchToFontPage d old new
+theorem inverse_setFont (d : Doc) (page old new : Nat) (hold : fmLookup d.x.fonts page = some old) :
+    InverseAt (.setFont page old new) d := IcyVerif.Undo.inverse_setFont d page old new hold
+theorem inverse_addFont (d : Doc) (oldPage newPage font : Nat) (r0 : Option Nat) : InverseAt (.addFont oldPage newPage font r0) d :=
+  IcyVerif.Undo.inverse_addFont d oldPage newPage font r0
+theorem inverse_removeFont (d : Doc) (slot : Nat) (f0 : Option Nat) : InverseAt (.removeFont slot f0) d :=
+  IcyVerif.Undo.inverse_removeFont d slot f0
+theorem inverse_changeFontSlot (d : Doc) (src dst : Nat) (r0 : Option Nat) : InverseAt (.changeFontSlot src dst r0) d :=
+  IcyVerif.Undo.inverse_changeFontSlot d src dst r0
+theorem inverse_replaceFontUsage (d : Doc) (op np : Nat) (nl : List LayerM) :
+    Undoable (.replaceFontUsage op d.layers np nl) d.obs ({ d with layers := nl, fontPage := np } : Doc).obs :=
+  undoable_replaceFontUsage d op np nl
+theorem inverse_switchPalettte (d : Doc) (pal : List Nat) : InverseAt (.switchPalettte pal) d :=
+  IcyVerif.Undo.inverse_switchPalettte d pal
+theorem inverse_setSauceData (d : Doc) (data : Option Nat) : InverseAt (.setSauceData data) d :=
+  IcyVerif.Undo.inverse_setSauceData d data
+theorem inverse_setIceMode (d : Doc) (nm : Nat) (nl : List LayerM) :
+    Undoable (.setIceMode d.x.iceMode d.layers nm nl) d.obs ({ d with layers := nl, x := { d.x with iceMode := nm } } : Doc).obs :=
+  undoable_setIceMode d nm nl
+theorem inverse_switchPalette (d : Doc) (nm : Nat) (npal : List Nat) (nl : List LayerM) :
+    Undoable (.switchPalette d.x.paletteMode d.x.palette d.layers nm npal nl) d.obs
+      ({ d with layers := nl, x := { d.x with palette := npal, paletteMode := nm } } : Doc).obs :=
+  undoable_switchPalette d nm npal nl
+theorem inverse_reverseCaret (d : Doc) (px py ox oy : Int) : Undoable (.reverseCaret px py ox oy) d.obs d.obs :=
+  undoable_reverseCaret d px py ox oy
+/-- **ReversedUndo**: wrapping a record that can be undone from the current document gives a record that obeys the law -/
+theorem inverse_reversed (d : Doc) (op : UndoOp) (a : DObs) (h : Undoable op a d.obs) : InverseAt (.reversed op) d :=
+  IcyVerif.Undo.inverse_reversed d op a h
 
 /-! ## non-vacuity and witnesses -/
 
 def demoLayer : LayerM := ⟨3, 2, defaultProps, [[⟨65, 0, 7, 0, 0⟩, ⟨66, 0, 7, 0, 0⟩, ⟨67, 0, 7, 0, 0⟩], [⟨68, 0, 7, 0, 0⟩]]⟩
-def demoDoc : Doc := ⟨3, 2, [demoLayer], none, 0, 0, 0, false⟩
+def demoDoc : Doc := ⟨3, 2, [demoLayer], none, 0, 0, 0, false, ⟨[(0, 0)], 2, [0, 170], 1, 0, none⟩, ⟨3, 2, []⟩, 0⟩
 
 /-- `stack_discipline_fresh` applies to a non-trivial history: set_layer_size, an atomic group of two set_chars (one of
     them on a row that is not materialised), undo, redo, undo — every step `Good` by the lemmas above -/
@@ -237,11 +296,8 @@ example : ∀ s ∈ ([.act (fun _ => .ok (some (.setLayerSize 0 0 0 2 1))), .beg
   · trivial
   · intro d op hop
     simp at hop; subst hop
-    intro op' d' hr
-    -- on a layer that is not alpha-locked the law holds; on an alpha-locked one this `redo` writes a visible cell
-    refine IcyVerif.Undo.inverse_setChar_partial d 0 1 0 _ _ ?_ ?_ op' d' hr
-    · intro l hl; simp [List.getD_eq_getElem?_getD, hl]
-    · intro l hl hh; exact absurd hh.2.2.2 (by decide)
+    refine IcyVerif.Undo.inverse_setChar d 0 1 0 _ _ ?_
+    intro l hl; simp [List.getD_eq_getElem?_getD, hl]
   · intro d; rfl
   · trivial
   · trivial
@@ -254,28 +310,28 @@ example : ∃ ed1, (⟨demoDoc, [], [], []⟩ : Ed).run 0 [.act (fun _ => .ok (s
       .touch (fun d => { d with caretX := 1 }), .endAtomic, .undo, .redo, .undo] = .ok ed1 ∧
       ed1.undoStack.length = 1 ∧ ed1.redoStack.length = 1 := ⟨_, rfl, rfl, rfl⟩
 
-/-- `api_history_discipline` on a concrete history: shrink the layer (hiding a row), duplicate it, toggle and delete a
-    column inside an atomic group, undo, undo, redo: all edits succeed, two entries on the undo stack, one to redo -/
-example : ∃ ed1, (⟨demoDoc, [], [], []⟩ : Ed).run 0 (([.setLayerSize 0 3 1, .duplicateLayer 0, .beginAtomic, .toggleVisibility 1,
-      .deleteColumn, .endAtomic, .undo, .undo, .redo] : List Call).flatMap Call.steps) = .ok ed1 ∧
-      ed1.undoStack.length = 2 ∧ ed1.redoStack.length = 1 := ⟨_, rfl, rfl, rfl⟩
+/-- `api_history_discipline` on a concrete history: shrink the layer (hiding a row), flip it inside a user group together
+    with a font being added, scroll the row left, undo, undo, redo: all edits succeed -/
+example : (match (⟨demoDoc, [], [], []⟩ : Ed).run 0 (([.setLayerSize 0 3 1, .beginAtomic, .flipX,
+      .addFont (some 7) (some 3), .endAtomic, .scrollLeft, .undo, .undo, .redo] : List Call).flatMap Call.steps) with
+      | .ok ed1 => (ed1.undoStack.length, ed1.redoStack.length)
+      | .error _ => (0, 0)) = (2, 1) := by decide +kernel
 
-/-- witness for `inverse_setChar_partial`'s exclusion (finding `UndoSetChar:undo-mismatch:alphalocked`): writing the
-    invisible cell over a visible one on an alpha-locked layer is not undone -/
-example :
-    let l : LayerM := ⟨1, 1, { defaultProps with hasAlpha := true, alphaLocked := true }, [[⟨65, 0, 7, 0, 0⟩]]⟩
-    let d : Doc := ⟨1, 1, [l], none, 0, 0, 0, false⟩
-    ∃ op' d' op'' d₂, (UndoOp.setChar 0 0 0 (l.getChar 0 0) Cell.invisible).redo d = .ok (op', d') ∧
-      op'.undo d' = .ok (op'', d₂) ∧ (d₂.layers.getD 0 l).getChar 0 0 ≠ l.getChar 0 0 :=
-  ⟨_, _, _, _, rfl, rfl, by decide⟩
-
-/-- witness for the `UndoLayerChange` finding (`UndoLayerChange(area):undo-mismatch:hidden`): a whole-layer snapshot
-    record taken by `from_layer` on a layer with a hidden second row; `undo` replaces the row storage wholesale and the
-    hidden row is gone -/
+/-- the repaired `UndoLayerChange` on the situation of the former finding `UndoLayerChange(area):undo-mismatch:hidden`: a
+    whole-layer snapshot of a layer with a hidden second row is stamped back and the hidden row is still there -/
 example :
     let l : LayerM := ⟨1, 1, defaultProps, [[⟨65, 0, 7, 0, 0⟩], [⟨66, 0, 7, 0, 0⟩]]⟩
     ∃ snap, fromLayer l ⟨0, 0, 1, 1⟩ = .ok snap ∧
-      rowsGet (layerChangeApply l 0 0 snap).lines 0 1 ≠ rowsGet l.lines 0 1 :=
+      rowsGet (layerChangeApply l 0 0 snap).lines 0 1 = rowsGet l.lines 0 1 :=
   ⟨_, rfl, by decide⟩
+
+/-- and `UndoSetChar` on an alpha-locked layer (former finding `UndoSetChar:undo-mismatch:alphalocked`): the erased cell
+    comes back -/
+example :
+    let l : LayerM := ⟨1, 1, { defaultProps with hasAlpha := true, alphaLocked := true }, [[⟨65, 0, 7, 0, 0⟩]]⟩
+    let d : Doc := { demoDoc with w := 1, h := 1, layers := [l] }
+    ∃ op' d' op'' d₂, (UndoOp.setChar 0 0 0 (l.getChar 0 0) Cell.invisible).redo d = .ok (op', d') ∧
+      op'.undo d' = .ok (op'', d₂) ∧ (d₂.layers.getD 0 l).getChar 0 0 = l.getChar 0 0 :=
+  ⟨_, _, _, _, rfl, rfl, by decide⟩
 
 end IcyVerif.C08
